@@ -178,6 +178,7 @@ Ltac nf :=
   | |- (match ?c with [] => _ | _ :: _ => _ end) <> Fuel => destruct c; nf
   | |- (match ?c with Some _ => _ | None => _ end) <> Fuel => destruct c; nf
   | |- (match ?c with (_, _) => _ end) <> Fuel => destruct c; nf
+  | |- (match vv ?c with VStr _ => _ | _ => _ end) <> Fuel => destruct (vv c); nf
   | |- of_opt _ <> Fuel => apply of_opt_nf
   | |- str_of _ <> Fuel => apply of_opt_nf
   | |- int_of _ <> Fuel => apply of_opt_nf
